@@ -484,7 +484,7 @@ def _job(job):
 TIERS = {
     # base seeds, extra seeds from VERIF_SEED, cli seeds, cli languages per combination,
     # cpu budget per generation (s), wall deadline (s)
-    'quick': (BASE_SEEDS[:3], 1, [1], 1, 4, 45),
+    'quick': (BASE_SEEDS[:12], 1, [1], 1, 4, 45),
     'thorough': (BASE_SEEDS, 20, [1, 2, 3], 4, 25, 780),
 }
 
@@ -494,6 +494,8 @@ def plan(tier, seed):
     rnd = random.Random(seed)
     keys = [combo_key(c) for c in COMBOS]
     base, extra, cli_seeds, cli_langs, budget, deadline = TIERS['quick' if tier == 'quick' else 'thorough']
+    deadline = float(os.environ.get('C17_DEADLINE', deadline))      # experiments only; the tiers fix the defaults
+    budget = float(os.environ.get('C17_BUDGET', budget))
     seeds = list(base)
     while len(seeds) < len(base) + extra:
         s = rnd.randrange(1000, 10 ** 6)
@@ -505,24 +507,36 @@ def plan(tier, seed):
         for n, k in enumerate(keys):
             for j in range(cli_langs):
                 jobs.append((LANGS[(n + n // 4 + j) % 4], s, k, True))
-    # most switches on first: these are the runs a deadline must not cut
-    for s in seeds:
-        for k in sorted(keys, key=lambda x: -x.count('1')):
-            for lang in LANGS:
-                jobs.append((lang, s, k, False))
+    if tier == 'quick':
+        # covering design: every (seed, language) gets 4 of the 16 combinations, one from each group of use-site
+        # settings; the 4 languages of one seed cover all 16, and 4 consecutive seeds cover all 64 (language,
+        # combination) pairs -- more distinct seeds for the same number of generations
+        for si, s in enumerate(seeds):
+            for li, lang in enumerate(LANGS):
+                for n, k in enumerate(keys):
+                    if (n + n // 4 + li + si) % 4 == 0:
+                        jobs.append((lang, s, k, False))
+    else:
+        for s in seeds:
+            for k in sorted(keys, key=lambda x: -x.count('1')):
+                for lang in LANGS:
+                    jobs.append((lang, s, k, False))
     jobs = [(i,) + j + (budget,) for i, j in enumerate(jobs)]
-    desc = ('%d generator seeds (fixed %d..%d + %d from VERIF_SEED) x 4 languages x 16 switch combinations with the '
+    desc = ('%d generator seeds (fixed %d..%d + %d from VERIF_SEED) x 4 languages x %s with the '
             'configuration set directly, plus seeds %s x 16 combinations x %d language(s) through a re-import of '
-            'src.args with the command-line switches (= %d generations; each abandoned after %d s CPU, the run stops '
-            'scheduling after %d s wall)'
-            % (len(seeds), base[0], base[-1], extra, cli_seeds, cli_langs, len(jobs), budget, deadline))
+            'src.args with the command-line switches (= %d generations; each abandoned after %g s CPU, the run stops '
+            'scheduling after %g s wall)'
+            % (len(seeds), base[0], base[-1], extra,
+               '4 of the 16 switch combinations per (seed, language) in a covering design (all 64 (language, '
+               'combination) pairs every 4 seeds)' if tier == 'quick' else '16 switch combinations',
+               cli_seeds, cli_langs, len(jobs), budget, deadline))
     return jobs, desc, deadline
 
 
 def run(tier, seed, stop_first=False, workers=None, stop_prefix='bounded[', stop_function=None):
     t0 = time.time()
     jobs, desc, deadline = plan(tier, seed)
-    workers = workers or int(os.environ.get('C17_WORKERS', '0')) or min(16, os.cpu_count() or 1)
+    workers = workers or int(os.environ.get('C17_WORKERS', '0')) or min(8 if tier == 'quick' else 16, os.cpu_count() or 1)
     _ENV['e'] = load()          # before the fork: the workers inherit the loaded tree
     results = []
     cut = False
